@@ -619,8 +619,20 @@ type reverseSegmentScanner struct {
 // newReverseSegmentScanner creates a scanner that iterates from the given
 // offset backwards.
 func newReverseSegmentScanner(segment *segment, startOffset int64) *reverseSegmentScanner {
-	// Convert log offset to index entry offset
-	entryOffset := startOffset - segment.BaseOffset
+	// Convert log offset to index entry offset. The index is dense but, once
+	// the segment has been compacted, its offsets are not, so the entry to
+	// start from has to be searched for: it is the last entry whose offset is
+	// not greater than the start offset.
+	var (
+		e = &entry{}
+		n = int(segment.Index.CountEntries())
+	)
+	entryOffset := int64(sort.Search(n, func(i int) bool {
+		if err := segment.Index.ReadEntryAtLogOffset(e, int64(i)); err != nil {
+			return true
+		}
+		return e.Offset > startOffset
+	})) - 1
 	return &reverseSegmentScanner{
 		s:   segment,
 		ris: newReverseIndexScanner(segment.Index, entryOffset),
